@@ -54,6 +54,7 @@ func c11Programs(thorough bool) []c11Program {
 		{Name: "update-2-tables", Files: tu, Args: []string{"UPDATE t SET b = 'z'; UPDATE u SET c = 'r';"}},
 		{Name: "create-insert", Files: tu, Args: []string{"CREATE TABLE `n.csv` (c1, c2); INSERT INTO n VALUES (1, 2);"}, Created: []string{"n.csv"}},
 		{Name: "update-create", Files: tu, Args: []string{"UPDATE t SET b = 'z'; CREATE TABLE `n.csv` (c1); INSERT INTO n VALUES (1);"}, Created: []string{"n.csv"}},
+		{Name: "create-2-tables", Files: tu, Args: []string{"CREATE TABLE `n.csv` (c1); CREATE TABLE `m.csv` (c1); INSERT INTO n VALUES (1); INSERT INTO m VALUES (2);"}, Created: []string{"n.csv", "m.csv"}},
 		{Name: "out-nonempty", Files: tu, Args: []string{"-o", "out.csv", "SELECT * FROM t"}, ReadOnly: true, Created: []string{"out.csv"}},
 		{Name: "out-empty", Files: tu, Args: []string{"-o", "out.csv", "-f", "csv", "-N", "SELECT * FROM t WHERE a = 99"}, ReadOnly: true},
 		{Name: "out-empty-chdir", Files: map[string]string{"t.csv": t, "sub/t.csv": t, "sub/out.csv": "keep\n"}, Args: []string{"-o", "out.csv", "CHDIR 'sub'; SELECT * FROM t WHERE a = 99;"}, ReadOnly: true},
@@ -114,7 +115,19 @@ func c11Exec(dir string, p c11Program, env []string) procx.Outcome {
 }
 
 // c11Judge applies the oracle to the directory left by one run.
-func c11Judge(c *core.Ctx, dir string, p c11Program, out procx.Outcome, final map[string]string, inj c11Injection, k int, pt procx.TracePoint) {
+// c11WritePhaseEnd is the number of the last point at which the commit of the undisturbed run still writes table
+// contents (truncate / write); later points finalize the files one by one, where a fault can only stop half-way.
+func c11WritePhaseEnd(ref []procx.TracePoint) int {
+	end := 0
+	for _, tp := range ref {
+		if tp.Name == "write" || tp.Name == "truncate" {
+			end = tp.K
+		}
+	}
+	return end
+}
+
+func c11Judge(c *core.Ctx, dir string, p c11Program, out procx.Outcome, final map[string]string, inj c11Injection, k int, pt procx.TracePoint, writePhaseEnd int) {
 	payload := c11Payload{Program: p, K: k, PointName: pt.String(), Inj: inj}
 	where := fmt.Sprintf("program %s %q, %s %s at point %d %s: exit %d", p.Name, p.Args, inj.Kind, inj.Arg, k, pt.String(), out.Exit)
 	cls := inj.Kind
@@ -207,6 +220,34 @@ func c11Judge(c *core.Ctx, dir string, p c11Program, out procx.Outcome, final ma
 			}
 		}
 	}
+	// a transaction that left EVERY table it updates at its old contents was not committed: none of the tables it
+	// creates may exist then (programs with one transaction; an --out file is not a table). Judged for injections
+	// up to the end of the commit's write phase: a fault while the files are finalized one by one can stop half-way.
+	if len(p.Created) > 0 && k >= 1 && k <= writePhaseEnd && !strings.Contains(strings.ToUpper(strings.Join(p.Args, " ")), "COMMIT") {
+		updated, allOld := 0, true
+		for n, old := range p.Files {
+			if strings.HasPrefix(filepath.Base(n), ".") || final[n] == old {
+				continue
+			}
+			updated++
+			if snap[n] != old {
+				allOld = false
+			}
+		}
+		if updated > 0 && allOld {
+			for _, cr := range p.Created {
+				isOut := false
+				for i, a := range p.Args {
+					if (a == "-o" || a == "--out") && i+1 < len(p.Args) && p.Args[i+1] == cr {
+						isOut = true
+					}
+				}
+				if _, exists := snap[cr]; exists && !isOut && !isExcused(cr) {
+					c.Violate("created-table-of-uncommitted-transaction:"+cls, fmt.Sprintf("%s: %s exists although every table the transaction updates still holds its old contents (the transaction was not committed)", where, cr), payload)
+				}
+			}
+		}
+	}
 	for n, old := range p.Files {
 		got, exists := snap[n]
 		if strings.HasPrefix(filepath.Base(n), ".") {
@@ -259,7 +300,8 @@ func c11Run(c *core.Ctx) {
 			continue
 		}
 		final := drv.DirSnapshot(dir)
-		c11Judge(c, dir, p, ref, final, c11Injection{Kind: "none"}, 0, procx.TracePoint{})
+		wpe := c11WritePhaseEnd(ref.Trace)
+		c11Judge(c, dir, p, ref, final, c11Injection{Kind: "none"}, 0, procx.TracePoint{}, wpe)
 		firstChange := len(ref.Trace) + 1
 		for _, tp := range ref.Trace {
 			if strings.HasPrefix(filepath.Base(tp.Path), ".") || tp.Name == "create" || tp.Name == "rename" || tp.Name == "write" {
@@ -313,7 +355,7 @@ func c11Run(c *core.Ctx) {
 				if tp.K-1 < len(out.Trace) && out.Trace[tp.K-1].K == tp.K {
 					actual = out.Trace[tp.K-1] // point k of this run may concern another file than in the reference run (failure paths range over other maps)
 				}
-				c11Judge(c, dir, p, out, final, inj, tp.K, actual)
+				c11Judge(c, dir, p, out, final, inj, tp.K, actual, wpe)
 				c.Eval(fmt.Sprintf("%s@%d:%s%s", p.Name, tp.K, inj.Kind, inj.Arg), tp.K >= firstChange)
 				c.Observe("exit_codes", fmt.Sprint(out.Exit))
 				if c.WantSample() && tp.K > firstChange && p.Base == "update-create" {
@@ -371,5 +413,5 @@ func c11Replay(c *core.Ctx, payload json.RawMessage) {
 	if p.K-1 < len(out.Trace) && p.K >= 1 {
 		tp = out.Trace[p.K-1]
 	}
-	c11Judge(c, dir, p.Program, out, final, p.Inj, p.K, tp)
+	c11Judge(c, dir, p.Program, out, final, p.Inj, p.K, tp, c11WritePhaseEnd(ref.Trace))
 }
